@@ -104,6 +104,14 @@ static std::vector<Fn> catalogue() {
     // ------------------------------------------------------------------ C08
     add("C08", "resample", {V(fill(A.r1, 30, 1); return flat(resample(A.r1, 3, 2));), V(fill(A.r1, 30, 2); return flat(resample(A.r1, 3, 2));), V(fill(A.r1, 30, 1); return flat(resample(A.r1, 2, 3));),
                             V(fill(A.r1, 30, 1); return flat(resample(A.r1, 3, 2, 4, 3.0));)});
+    // one parameter at a time: the ratio (also ratios that share the filter order but not the cut-off), n, beta
+    add("C08", "resample(p,q)", {V(fill(A.r1, 30, 1); return flat(resample(A.r1, 3, 5));), V(fill(A.r1, 30, 1); return flat(resample(A.r1, 3, 1));), V(fill(A.r1, 30, 1); return flat(resample(A.r1, 5, 3));),
+                                 V(fill(A.r1, 30, 1); return flat(resample(A.r1, 1, 3));)});
+    add("C08", "resample(n,beta)", {V(fill(A.r1, 30, 1); return flat(resample(A.r1, 3, 2, 10, 5.0));), V(fill(A.r1, 30, 1); return flat(resample(A.r1, 3, 2, 15, 5.0));), V(fill(A.r1, 30, 1); return flat(resample(A.r1, 3, 2, 10, 8.0));),
+                                    V(fill(A.r1, 30, 1); return flat(resample(A.r1, 2, 1, 15, 5.0));)});
+    add("C08", "converters", {V(fill(A.r1, 24, 1); FIRRateConverter f(2, 3); return flat(f.process(A.r1));), V(fill(A.r1, 24, 1); FIRInterpolator f(2); return flat(f.process(A.r1));),
+                              V(fill(A.r1, 24, 1); FIRDecimator f(3); return flat(f.process(A.r1));), V(fill(A.r1, 24, 1); FIRInterpolator f(3); return flat(f.process(A.r1));)});
+    add("C08", "design_multirate_fir(L,M)", {V(return flat(design_multirate_fir(2, 3));), V(return flat(design_multirate_fir(2, 1));), V(return flat(design_multirate_fir(3, 1));), V(return flat(design_multirate_fir(1, 3));)});
     add("C08", "FIRResampler(p,q).process", {V(fill(A.r1, 24, 1); FIRResampler f(3, 2); return flat(f.process(A.r1));), V(fill(A.r1, 24, 2); FIRResampler f(3, 2); return flat(f.process(A.r1));),
                                              V(fill(A.r1, 24, 1); FIRResampler f(6, 4); return flat(f.process(A.r1));), V(fill(A.r1, 24, 1); FIRResampler f(1, 2); return flat(f.process(A.r1));)});
     add("C08", "design_multirate_fir", {V(return flat(design_multirate_fir(3, 2));), V(return flat(design_multirate_fir(2, 3));), V(return flat(design_multirate_fir(3, 2, 6, 60));)});
